@@ -149,3 +149,11 @@ def memcheck_reports(logdir):
             else:
                 i += 1
     return reports, summaries
+
+
+def is_timeout(x):
+    """a client-side socket timeout (exception object or the "error:..." status text made from it): a watchdog firing, never a verdict"""
+    import socket
+    if isinstance(x, BaseException):
+        return isinstance(x, (socket.timeout, TimeoutError))
+    return isinstance(x, str) and ("TimeoutError" in x or "timed out" in x)
